@@ -261,7 +261,7 @@ func (g *verifGen) fetch(version int16, codec CompressionCodec) (*FetchResponse,
 // VerifC10Sample builds a valid encoding for the entry point and version; codec selects the compression of
 // record carrying samples (0 none, 1 gzip, 2 snappy, 3 lz4, 4 zstd); rich = no empty collections / nil pointers.
 // The result has been checked to decode without error.  next is the random source.
-func VerifC10Sample(entry string, version int16, codec int, rich bool, next func() uint64) (buf []byte, err error) {
+func VerifC10Sample(entry string, version int16, codec int, rich bool, validate bool, next func() uint64) (buf []byte, err error) {
 	defer func() {
 		if p := recover(); p != nil {
 			buf, err = nil, fmt.Errorf("panic while building sample: %v", p)
@@ -328,10 +328,12 @@ func VerifC10Sample(entry string, version int16, codec int, rich bool, next func
 	case entry == "ConsumerGroupMemberMetadata":
 		m := &ConsumerGroupMemberMetadata{}
 		g.fill(reflect.ValueOf(m).Elem(), 0)
+		m.Version = version
 		enc = m
 	case entry == "ConsumerGroupMemberAssignment":
 		m := &ConsumerGroupMemberAssignment{}
 		g.fill(reflect.ValueOf(m).Elem(), 0)
+		m.Version = version
 		enc = m
 	case entry == "StickyAssignorUserDataV0":
 		m := &StickyAssignorUserDataV0{}
@@ -351,8 +353,41 @@ func VerifC10Sample(entry string, version int16, codec int, rich bool, next func
 	if buf == nil {
 		buf = []byte{}
 	}
-	if derr, _ := VerifC10Decode(entry, version, buf); derr != nil {
-		return nil, fmt.Errorf("sample does not decode: %v", derr)
+	if validate {
+		if derr, _ := VerifC10Decode(entry, version, buf); derr != nil {
+			return nil, fmt.Errorf("sample does not decode: %v", derr)
+		}
 	}
 	return buf, nil
+}
+
+// VerifC10WrapMembers builds a JoinGroupResponse ("JoinGroupResponse.GetMembers") or DescribeGroupsResponse
+// ("DescribeGroupsResponse.members") of the given version whose members carry the given metadata / assignment blobs.
+func VerifC10WrapMembers(entry string, version int16, meta, assign []byte, next func() uint64) (buf []byte, err error) {
+	defer func() {
+		if p := recover(); p != nil {
+			buf, err = nil, fmt.Errorf("panic while building sample: %v", p)
+		}
+	}()
+	g := &verifGen{next: next, version: version, rich: true}
+	var enc encoder
+	switch entry {
+	case "JoinGroupResponse.GetMembers":
+		r := &JoinGroupResponse{}
+		g.fill(reflect.ValueOf(r).Elem(), 0)
+		r.Members = map[string][]byte{"m1": meta, "m2": meta}
+		enc = r
+	case "DescribeGroupsResponse.members":
+		r := &DescribeGroupsResponse{}
+		g.fill(reflect.ValueOf(r).Elem(), 0)
+		for _, grp := range r.Groups {
+			for _, m := range grp.Members {
+				m.MemberMetadata, m.MemberAssignment = meta, assign
+			}
+		}
+		enc = r
+	default:
+		return nil, fmt.Errorf("not a member carrying entry: %s", entry)
+	}
+	return encode(enc, nil)
 }
